@@ -22,6 +22,11 @@ import re
 import subprocess
 import sys
 
+# the text route is compared member-for-member with the isar route, which names builtin types directly;
+# the typedef decoration of tools/schema.py would only rename member types here (typedefs are covered by the
+# 'rich' definition sets of this check)
+os.environ["VERIF_NO_TYPEDEFS"] = "1"
+
 sys.path.insert(0, os.path.dirname(os.path.abspath(__file__)))
 sys.path.insert(0, os.path.join(os.path.dirname(os.path.abspath(__file__)), "..", "tools"))
 import common  # noqa: E402
